@@ -97,6 +97,11 @@ def task_reglan(which, exclude_kf):
         s.add(z3.Not(z3.InRe(x, rl.tr(K.root))))
     t1 = time.time()
     r = s.check()
+    from vlib import e2util as _x
+    if str(r) in ("sat", "unsat"):
+        _x.cross_check(s, str(r), 20)
+        if _x.XCHECK["disagree"]:
+            raise RuntimeError("solver disagreement: %r" % _x.XCHECK["disagree"][:2])
     dt = time.time() - t1
     res = {"name": name + (" (outside KF-C18-1 region)" if exclude_kf else ""), "solver_s": dt,
            "sample": {"query": "exists x: (x in L(%s)) != (x in L(ref_%s))" % (real[:60] + "...", which),
@@ -162,6 +167,11 @@ def task_refcheck(which, n_each):
                 s.add(z3.Length(x) == (k % (15 if which == "v4" else 20)) + 1)
             t1 = time.time()
             r = s.check()
+            from vlib import e2util as _x
+            if str(r) in ("sat", "unsat"):
+                _x.cross_check(s, str(r), 20)
+                if _x.XCHECK["disagree"]:
+                    raise RuntimeError("solver disagreement: %r" % _x.XCHECK["disagree"][:2])
             dt += time.time() - t1
             if str(r) != "sat":
                 if not member:
@@ -241,6 +251,11 @@ def task_embedded(which, ext, N, all_spans, kf_active):
     s.add(R.B(viol))
     t1 = time.time()
     r = s.check()
+    from vlib import e2util as _x
+    if str(r) in ("sat", "unsat"):
+        _x.cross_check(s, str(r), 20)
+        if _x.XCHECK["disagree"]:
+            raise RuntimeError("solver disagreement: %r" % _x.XCHECK["disagree"][:2])
     res["solver_s"] = time.time() - t1
     if str(r) == "unsat":
         res["status"] = "discharged"
